@@ -56,20 +56,20 @@ Writes == {<< Pk(k, i) >> : k \in Kinds, i \in Ids} \cup Extra
 In(pk, arm) ==
   /\ st.alive /\ st.narr + Len(pk) <= MaxPkts
   /\ \E ch \in {0, 1} : Take(DoIn(st, pk, arm, ch))
-  /\ hist' = Append(hist, [a |-> "in", pk |-> pk, arm |-> arm, h |-> 0, o |-> ""])
+  /\ hist' = Append(hist, [a |-> "in", pk |-> pk, arm |-> arm])
 
 End(k) ==
   /\ st.alive /\ k \in Ends
   /\ \A i \in 1..Len(st.rbuf) : st.rbuf[i].kind # "raw"      \* (undecodable bytes wait unread at most once)
   /\ Take(DoEnd(st, k))
-  /\ hist' = Append(hist, [a |-> "x", pk |-> << >>, arm |-> << >>, h |-> 0, o |-> EndTok(st, k)])
+  /\ hist' = Append(hist, [a |-> "x", o |-> EndTok(st, k)])
 
 Complete(gi, o) ==
   /\ st.phase \in {"run", "stop"} /\ gi \in 1..Len(st.gates)
   /\ (st.gates[gi].kind = "stop" => o = "ok")
   /\ (st.gates[gi].kind # "pub" => o = "ok" \/ "err" \in Outcomes)
   /\ \E ch \in {0, 1} : Take(DoComplete(st, gi, o, ch))
-  /\ hist' = Append(hist, [a |-> "c", pk |-> << >>, arm |-> << >>, h |-> st.gates[gi].h, o |-> o])
+  /\ hist' = Append(hist, [a |-> "c", h |-> st.gates[gi].h, o |-> o])
 
 Arms == {<< >>} \cup (IF Imm THEN {<< o >> : o \in Outcomes} ELSE {})
 Next ==
